@@ -3,6 +3,7 @@
 package main
 
 import (
+	"strings"
 	"context"
 	"crypto/rand"
 	"encoding/json"
@@ -61,6 +62,15 @@ func (s *caStub) Sign(ctx context.Context, req *proto.SSHCertificateSigningReque
 	case "empty":
 		s.Issued = append(s.Issued, nil)
 		return nil, nil, nil
+	case "plainkeys":
+		pk, _, _, _, err := ssh.ParseAuthorizedKey([]byte(req.PublicKey))
+		if err != nil {
+			s.Issued = append(s.Issued, nil)
+			return nil, nil, err
+		}
+		out := []ssh.PublicKey{pk, fix.Pub(fix.Ed(4))}
+		s.Issued = append(s.Issued, out)
+		return out, []string{"plain", "plain"}, nil
 	}
 	pub, _, _, _, err := ssh.ParseAuthorizedKey([]byte(req.PublicKey))
 	if err != nil {
@@ -326,7 +336,7 @@ func cleanupScratch() {
 var envSeq int
 
 type envOpt struct {
-	KeyDir      string // none | pub | bare | both | unparsable | otheruser | directory | pub-otherkey
+	KeyDir      string // none | pub | bare | both | unparsable | otheruser | nearmiss-names | directory | pub-otherkey
 	LogName     string
 	Validity    uint64
 	KeyIDs      map[string]string // key_identifiers as written in the config
@@ -365,6 +375,19 @@ func newEnv(o envOpt) *genv {
 		w(ln, pubLine(reg))
 	case "otheruser":
 		w("someoneelse.pub", pubLine(reg))
+	case "nearmiss-names":
+		// other users whose names are near misses of this login name (another case, a prefix, a suffix, stray dots and
+		// spaces) have the key the agent holds registered; this login name has no file of its own
+		for _, nm := range []string{strings.ToLower(ln), strings.ToUpper(ln), ln + "x", "x" + ln, ln + ".", ln + " ", " " + ln, ln + ".pub.pub", ln + ".PUB", ln[:len(ln)-1]} {
+			if nm != ln && nm != ln+".pub" && nm != "" {
+				w(nm+".pub", pubLine(reg))
+				if nm+".pub" != ln {
+					w(nm, pubLine(reg))
+				}
+			}
+		}
+		os.Remove(filepath.Join(e.dir, ln))
+		os.Remove(filepath.Join(e.dir, ln+".pub"))
 	case "directory":
 		os.MkdirAll(filepath.Join(e.dir, ln+".pub"), 0o755)
 	case "pub-otherkey": // the key registered for this login name is another user's key
